@@ -18,12 +18,14 @@ structure WExt (w w' : World) : Prop where
   noRevive : ∀ id, id < w.orders.length → (w'.orders.getD id default).status = .active →
     (w.orders.getD id default).status = .active
   registry : ∀ sym id, id < w.orders.length → id ∈ Acc.getD w'.active sym → id ∈ Acc.getD w.active sym
+  final : ∀ id, id < w.orders.length → (w.orders.getD id default).status ≠ .active →
+    (w'.orders.getD id default).status = (w.orders.getD id default).status
 
 theorem WExt.refl (w : World) : WExt w w :=
-  ⟨Nat.le_refl _, fun _ _ => ⟨rfl, rfl⟩, fun _ _ h => h, fun _ _ _ h => h⟩
+  ⟨Nat.le_refl _, fun _ _ => ⟨rfl, rfl⟩, fun _ _ h => h, fun _ _ _ h => h, fun _ _ _ => rfl⟩
 
 theorem WExt.trans {a b c : World} (h1 : WExt a b) (h2 : WExt b c) : WExt a c := by
-  refine ⟨Nat.le_trans h1.len h2.len, ?_, ?_, ?_⟩
+  refine ⟨Nat.le_trans h1.len h2.len, ?_, ?_, ?_, ?_⟩
   · intro id hid
     have hb : id < b.orders.length := Nat.lt_of_lt_of_le hid h1.len
     exact ⟨(h2.same id hb).1.trans (h1.same id hid).1, (h2.same id hb).2.trans (h1.same id hid).2⟩
@@ -31,13 +33,18 @@ theorem WExt.trans {a b c : World} (h1 : WExt a b) (h2 : WExt b c) : WExt a c :=
     exact h1.noRevive id hid (h2.noRevive id (Nat.lt_of_lt_of_le hid h1.len) h)
   · intro sym id hid h
     exact h1.registry sym id hid (h2.registry sym id (Nat.lt_of_lt_of_le hid h1.len) h)
+  · intro id hid hf
+    have hb : id < b.orders.length := Nat.lt_of_lt_of_le hid h1.len
+    have e1 := h1.final id hid hf
+    exact (h2.final id hb (by rw [e1]; exact hf)).trans e1
 
 /-- a world that differs from `w` in neither orders nor registries -/
 theorem WExt.of_eq {w w' : World} (ho : w'.orders = w.orders) (ha : w'.active = w.active) : WExt w w' := by
-  refine ⟨by rw [ho]; exact Nat.le_refl _, ?_, ?_, ?_⟩
+  refine ⟨by rw [ho]; exact Nat.le_refl _, ?_, ?_, ?_, ?_⟩
   · intro id _; rw [ho]; exact ⟨rfl, rfl⟩
   · intro id _ h; rw [ho] at h; exact h
   · intro sym id _ h; rw [ha] at h; exact h
+  · intro id _ _; rw [ho]
 
 theorem getD_upd_status (os : List Order) (i id : Nat) (s : OrderStatus) :
     ((Acc.upd os i (fun o => { o with status := s })).getD id default).price = (os.getD id default).price ∧
@@ -61,13 +68,37 @@ theorem getD_upd_status (os : List Order) (i id : Nat) (s : OrderStatus) :
         obtain ⟨a, b, c, d⟩ := ih i id
         exact ⟨a, b, by rw [c], d⟩
 
-theorem setStatus_ext (w : World) (id : Nat) (s : OrderStatus) (hs : s ≠ .active) : WExt w (setStatus w id s) := by
+theorem getD_upd_other {α} [Inhabited α] (os : List α) (i id : Nat) (f : α → α) (h : i ≠ id) :
+    (Acc.upd os i f).getD id default = os.getD id default := by
+  induction os generalizing i id with
+  | nil => simp [Acc.upd]
+  | cons x xs ih =>
+    cases i with
+    | zero =>
+      cases id with
+      | zero => exact absurd rfl h
+      | succ id => simp [Acc.upd]
+    | succ i =>
+      cases id with
+      | zero => simp [Acc.upd]
+      | succ id =>
+        simp only [Acc.upd, List.getD_cons_succ]
+        exact ih i id (by omega)
+
+/-- the status of an ACTIVE order is set to a final one -/
+theorem setStatus_ext (w : World) (id : Nat) (s : OrderStatus) (hs : s ≠ .active)
+    (hact : (w.orders.getD id default).status = .active) : WExt w (setStatus w id s) := by
   unfold setStatus
-  refine ⟨?_, ?_, ?_, ?_⟩
+  refine ⟨?_, ?_, ?_, ?_, ?_⟩
   · simp only []; rw [(getD_upd_status w.orders id 0 s).2.2.1]; exact Nat.le_refl _
   · intro k _; exact ⟨(getD_upd_status w.orders id k s).1, (getD_upd_status w.orders id k s).2.1⟩
   · intro k _ h; exact (getD_upd_status w.orders id k s).2.2.2 hs h
   · intro sym k _ h; exact h
+  · intro k _ hf
+    have hne : id ≠ k := by
+      intro e; subst e; exact hf hact
+    simp only []
+    rw [getD_upd_other w.orders id k _ hne]
 
 /-! ### world operations that touch neither the order table nor the registries -/
 
@@ -145,7 +176,10 @@ theorem execute_ext (w : World) (id : Nat) : WExt w (execute w id) := by
   · exact WExt.refl _
   · split
     · exact WExt.refl _
-    · refine WExt.trans (setStatus_ext w id .executed (by decide)) (Same.ext ?_)
+    · rename_i o ho hst
+      have hact : (w.orders.getD id default).status = .active := by
+        rw [List.getD_eq_getElem?_getD, ho]; simpa using hst
+      refine WExt.trans (setStatus_ext w id .executed (by decide) hact) (Same.ext ?_)
       unfold onExecuted
       exact Same.trans (Same.trans (Same.trans (same_addExecutedOrder _ _) (same_exchangeOnExecution _ _)) (same_chargeFee _ _))
         (same_onExecutedCore _ _)
@@ -156,7 +190,10 @@ theorem cancel_ext (w : World) (id : Nat) : WExt w (cancel w id) := by
   · exact WExt.refl _
   · split
     · exact WExt.refl _
-    · refine WExt.trans (setStatus_ext w id .canceled (by decide)) (Same.ext ?_)
+    · rename_i o ho hst
+      have hact : (w.orders.getD id default).status = .active := by
+        rw [List.getD_eq_getElem?_getD, ho]; simpa using hst
+      refine WExt.trans (setStatus_ext w id .canceled (by decide) hact) (Same.ext ?_)
       dsimp only
       split
       · split
@@ -215,7 +252,7 @@ theorem getD_of_take {α} [Inhabited α] (l l' : List α) (h : l'.take l.length 
 theorem submit_ok_ext {w w' : World} {sym : Nat} {side : Side} {type : OrderType} {q p : Rat} {ro : Bool}
     (h : submit w sym side type q p ro = .ok w') : WExt w w' := by
   obtain ⟨ht, hl, ha⟩ := submit_ok_fields h
-  refine ⟨by omega, ?_, ?_, ?_⟩
+  refine ⟨by omega, ?_, ?_, ?_, ?_⟩
   · intro id hid
     rw [getD_of_take w.orders w'.orders ht id hid]
     exact ⟨rfl, rfl⟩
@@ -227,6 +264,8 @@ theorem submit_ok_ext {w w' : World} {sym : Nat} {side : Side} {type : OrderType
     rcases mem_getD_upd_append _ _ _ _ _ hm with hm | hm
     · exact hm
     · omega
+  · intro id hid _
+    rw [getD_of_take w.orders w'.orders ht id hid]
 
 theorem submit_err_ext {w w' : World} {k : Err} {sym : Nat} {side : Side} {type : OrderType} {q p : Rat} {ro : Bool}
     (h : submit w sym side type q p ro = .error (k, w')) : WExt w w' :=
@@ -235,7 +274,7 @@ theorem submit_err_ext {w w' : World} {k : Err} {sym : Nat} {side : Side} {type 
 /-- clearing or filtering a registry -/
 theorem registry_shrink_ext (w : World) (act : List (List Nat))
     (h : ∀ sym id, id ∈ Acc.getD act sym → id ∈ Acc.getD w.active sym) : WExt w { w with active := act } :=
-  ⟨Nat.le_refl _, fun _ _ => ⟨rfl, rfl⟩, fun _ _ hh => hh, fun sym id _ hm => h sym id hm⟩
+  ⟨Nat.le_refl _, fun _ _ => ⟨rfl, rfl⟩, fun _ _ hh => hh, fun sym id _ hm => h sym id hm, fun _ _ _ => rfl⟩
 
 theorem mem_getD_upd_sub (l : List (List Nat)) (i j id : Nat) (f : List Nat → List Nat) (hf : ∀ x, ∀ z ∈ f x, z ∈ x)
     (h : id ∈ Acc.getD (Acc.upd l i f) j) : id ∈ Acc.getD l j := by
